@@ -2297,7 +2297,8 @@ class Allocator:
                 allocation = allocs[client][idx]
                 if isinstance(allocation, TaskAllocation):
                     current_tasks.add(allocation.task)
-                elif isinstance(allocation, JoinPoint) and len(current_tasks) > 0:
+                elif isinstance(allocation, JoinPoint) and client == 0 and idx > 0:
+                    # one entry per step, even if a step has no tasks (e.g. an element emptied by task filters)
                     tasks.append(current_tasks)
                     current_tasks = set()
 
